@@ -345,7 +345,7 @@ impl<Endpoint: Ord + Clone> BlockHandler<Endpoint> {
     fn compute_message_size_hack(packet: &mut Packet) -> usize {
         let moved_payload = mem::take(&mut packet.payload);
         let size_sans_payload = packet
-            .to_bytes()
+            .to_bytes_unlimited()
             .expect("Internal error encoding packet")
             .len();
         packet.payload = moved_payload;
